@@ -13,6 +13,7 @@ MCOpPages2 == { <<0,0,0,0>>, <<0,0,0,1>>, <<0,0,1,0>>, <<0,1,0,0>>, <<1,0,0,0>>,
 MCIdPages2 == { <<0,0,0,1>> }
 \* leaf flag sets are drawn from ALL declared PageTableEntryFlag bits: 0 present, 1 RW, 2 user, 3 write-through, 4 no-cache,
 \* 5 accessed, 6 dirty, 7 huge page (= PAT on a 4K leaf), 8 global, 9 copy-on-write, 63 no-execute
-MCFlagsA == { {0}, {0,1,7,63} }
-MCFlagsB == { {0}, {0,1,5,6,7}, {0,2,63}, {0,7,9,63}, {0,1,2,3,4,8} }
+\* sets WITHOUT bit 0 ask for a non-present leaf: the page must stay / become unmapped
+MCFlagsA == { {0}, {0,1,7,63}, {1,2} }
+MCFlagsB == { {0}, {0,1,5,6,7}, {0,2,63}, {0,7,9,63}, {0,1,2,3,4,8}, {1,9,63} }
 ====
